@@ -4,6 +4,7 @@
 // recursion evaluated in long double with a running rounding-error bound.
 #include "common/c09_core.hpp"
 #include <deque>
+#include <iomanip>
 using namespace vf;
 using namespace c09;
 
@@ -196,7 +197,7 @@ template<typename DT, typename IT> void cycle_case(Tape& t, Ctx& c, int max_leve
     for(int i = 0; i < n; ++i)
     {
       LD g = (LD)cor.elements()[i]; LD tol = e.x.e[(size_t)i] + 16.0L * (LD)std::numeric_limits<DT>::min();
-      VF_CHECK(std::isfinite((double)g) && fabsl(g - e.x.v[(size_t)i]) <= tol, where << "result entry " << i << " is " << (double)g << ", reference cycle gives " << (double)e.x.v[(size_t)i] << " (bound " << (double)tol << ")"
+      VF_CHECK(std::isfinite((double)g) && fabsl(g - e.x.v[(size_t)i]) <= tol, where << "result entry " << i << " is " << std::setprecision(17) << (double)g << ", reference cycle gives " << (double)e.x.v[(size_t)i] << std::setprecision(6) << " (difference " << (double)fabsl(g - e.x.v[(size_t)i]) << ", bound " << (double)tol << ")"
         << (e.zero_cor ? " [coarse grid correction vanishes exactly: every step length is a minimiser, the iterate must stay finite]" : ""));
     }
   }
